@@ -401,6 +401,15 @@ class World(object):
                             % (got, exp))
         n_started = 0
         self.terminal_at_offer = self.terminal_seen
+        # every task of one batch was rendered by this get_next_tasks() call: remember the context
+        # each entitlement carried now, because a task started earlier in the batch (an empty
+        # with-items task completes at once) may add an arrival to a join offered later in it
+        self.offer_refs = {}
+        for t in tasks:
+            c0 = self.ledger.match(t["id"], t["route"], dict((k, v) for k, v in t["ctx"].items()
+                                                              if not k.startswith("__")))
+            if c0 is not None and c0.ref is not None:
+                self.offer_refs[(t["id"], t["route"])] = (c0, c0.ref)
         for t in tasks:
             n_started += self.start_task(t, st_before)
         self.finish_if_completed()
@@ -446,7 +455,8 @@ class World(object):
                 self.kf_items_loop = "KF-failed-items-task-revisited-in-loop"
         # -- context & rendered input (C06)
         if new_exec and x.ref is not None and not getattr(x, "ref_unknown", False):
-            self.check_ctx(x, vals)
+            c0 = self.offer_refs.get((tid, route))
+            self.check_ctx(x, vals, c0[1] if c0 is not None and c0[0] is getattr(x, "credit", None) else None)
             self.check_input(x, t, vals)
         # -- delay (C13 / general)
         if new_exec:
@@ -1367,8 +1377,9 @@ class World(object):
             self.report("C11", "fails", "an expression error was recorded but the workflow is %s" % self.status)
 
     # ------------------------------------------------------------------ C06 checks
-    def check_ctx(self, x, vals):
-        exp = x.ref.values()
+    def check_ctx(self, x, vals, ref_at_offer=None):
+        ref = ref_at_offer or x.ref
+        exp = ref.values()
         if jeq(exp, vals):
             return
         diffs = [(k, exp.get(k, "<absent>"), vals.get(k, "<absent>")) for k in sorted(set(exp) | set(vals))
@@ -1381,12 +1392,12 @@ class World(object):
                         "stale merged context: %r" % (x.key(), diffs[:3]), tags=["failed_with_items_revisited"],
                         kf=self.kf_items_loop)
             return
-        asb = self.ledger.asbuilt_values(x.ref.idxs)
+        asb = self.ledger.asbuilt_values(ref.idxs)
         f = self.p.get("_features") or set()
         branches = getattr(getattr(x, "credit", None), "branches", None) or []
         if jeq(asb, vals) and len(x.parents) > 1:
             kf, tags = "KF-stale-inherited-value-at-merge", ["stale_inherited_value_at_merge"]
-        elif len(branches) > 1 and all(stale_explains(d[0], d[2], x.ref, branches) for d in diffs):
+        elif len(branches) > 1 and all(stale_explains(d[0], d[2], ref, branches) for d in diffs):
             kf, tags = "KF-stale-inherited-value-at-merge", ["stale_inherited_value_at_merge"]
         elif "dict_republish" in f and any(isinstance(d[1], dict) or isinstance(d[2], dict) for d in diffs):
             kf, tags = "KF-dict-republish-deep-merge", ["dict_republish"]
